@@ -1609,6 +1609,17 @@ def c20(tier, replay=None):
     specs = specs_for(tier, 80, 1200, PROFILES_ALL)
     tasks = [{"spec": s, "seed": seed(), "histories": 8 if q else 20, "valgrind": (not q) and (i % 10 == 0), "asan": i % (6 if q else 3) == 0} for i, s in enumerate(specs)]
     aggregate(res, pmap(c20_task, tasks))
+    # runtime part: morphism_toposort called repeatedly on identical tables must return the identical
+    # sequence (the model-level transcripts above rarely have several source objects with morphisms)
+    from . import checks_rt
+    d0, ops0 = res.distinct, res.cov.get("ops_by_kind")
+    s0 = seed()
+    checks_rt.run_jobs(res, [(["topo-det", "--seed", s0 * 10 + i, "--episodes", 4000 if q else 100000, "--max-obj", 9, "--max-mor", 14, "--splits", 4], 900) for i in range(4)], [])
+    res.cov["toposort_repeat_distinct_sequences"] = res.distinct
+    res.cov["toposort_repeat_ops_by_kind"] = res.cov.pop("ops_by_kind", None)
+    if ops0 is not None:
+        res.cov["ops_by_kind"] = ops0
+    res.distinct = d0
     return res.finish()
 
 
